@@ -54,7 +54,7 @@ class TPMA_LOCALITY(UINT8):
     TPM_LOC_TWO = 0x04
     TPM_LOC_THREE = 0x08
     TPM_LOC_FOUR = 0x10
-    extended = 0x60
+    extended = 0xE0
 
 
 @tpm_bitfield()
